@@ -126,6 +126,9 @@ def run_case(case):
         lb = LABPOOL["i"][1:3 + s % 3]
         if s % 5 == 4:
             lb = [4.1, 0.0] + ([0.5] if s % 2 else [])          # an int-labelled and a float-labelled variable (0 == 0.0 is shared)
+        elif s % 5 == 3:
+            la, lb = [3, 0, 2, 7][:3 + s % 2], [3, 5, 9, 7][:3 + s % 2]
+            lb[-1] = la[-1]                                     # same length, same first and last label, other labels in between
         a1 = mkarr(da, ["x"], [la], 10)
         a2 = mkarr(da, ["x", "y"], [lb, LABPOOL["s"][:2]], 50)
         ds = lib(lambda: da.Dataset(a=a1, b=a2), what="Dataset(a=x%s, b=(x%s, y))" % (la, lb), sig=sig)
